@@ -10,6 +10,9 @@ DRIVER := _build/driver/driver
 .PHONY: setup gen coq model driver clean
 
 # full build: every model, proof and property file
+# the top-level targets share build products (coq and model compile the same files): never run them side by side
+.NOTPARALLEL:
+
 setup: gen coq driver props
 
 gen:
